@@ -2,6 +2,7 @@ package exec
 
 import (
 	"fmt"
+	"sort"
 
 	zerr "github.com/DemoHn/Zn/pkg/error"
 	"github.com/DemoHn/Zn/pkg/io"
@@ -156,7 +157,15 @@ func ExecVarInputText(source string) (r.ElementMap, error) {
 func ExecExpressionInputText(exprStrMap map[string]string) (r.ElementMap, error) {
 	vm := r.InitVM(newVMGlobals(globalValues))
 	result := make(map[string]r.Element)
-	for k, v := range exprStrMap {
+	// evaluate in the order of the names: which error is reported when several
+	// expressions are faulty must not depend on Go's map order
+	names := make([]string, 0, len(exprStrMap))
+	for k := range exprStrMap {
+		names = append(names, k)
+	}
+	sort.Strings(names)
+	for _, k := range names {
+		v := exprStrMap[k]
 		evalResult, err := evalExpressionText(vm, v)
 		if err != nil {
 			return nil, err
